@@ -264,6 +264,33 @@ def run(ctx: Ctx):
     ctx.nontrivial += len(vec) + len(ln)
     ctx.sample({"item": vec[5]["item"], "bytes": bytes(vec[5]["bytes"]).hex()})
     ctx.sample({"length_vector": {k: ln[0][k] for k in ("f", "n", "head", "total")}})
+    # every character a text type ACCEPTS round-trips (whatever the accepted set is): all of the Basic Multilingual Plane
+    import secsgem.secs.variables as var
+    naccept = 0
+    for T in (var.String, var.JIS8):
+        for cp in range(0x10000):
+            if 0xD800 <= cp <= 0xDFFF:
+                continue
+            ch = chr(cp)
+            try:
+                o = T("x" + ch + "y")
+                enc = bytes(o.encode())
+            except Exception:  # noqa: BLE001
+                continue      # not accepted: nothing to hold
+            naccept += 1
+            try:
+                fresh = T()
+                pos = fresh.decode(enc + GARBAGE, 0)
+                back = fresh.get()
+            except Exception as exc:  # noqa: BLE001
+                ctx.violation({"check": "text-char-roundtrip", "type": T.__name__, "codepoint": cp, "error": type(exc).__name__,
+                               "what": f"{T.__name__} accepts U+{cp:04X} but decoding its own bytes {enc.hex()} raises {exc!r}"})
+                continue
+            if back != "x" + ch + "y" or pos != len(enc) or len(enc) != 2 + 3:
+                ctx.violation({"check": "text-char-roundtrip", "type": T.__name__, "codepoint": cp, "bytes": enc.hex(), "back": repr(back),
+                               "what": f"{T.__name__} accepts U+{cp:04X} ({ch!r}) but it decodes back as {back[1:-1]!r} (bytes {enc.hex()})"})
+    ctx.extra["accepted_text_characters"] = naccept
+    ctx.evaluations += 2 * 0x10000
     recs = record_random(ctx, wd, lambda it: bytes(e5bind.vbuild(it)[0].encode()), 1500 if ctx.quick else 20000, "variables")
     ctx.evaluations += len(recs)
     if recs:
